@@ -6,7 +6,7 @@ MODULE = "StorageModel.Properties.C06"
 THEOREMS = ["inv_init", "inv_step", "inv_tx", "inv_reachable", "absent_no_trace", "delete_no_trace",
             "delete_no_trace_owner", "cascade_no_trace", "boss_cascade_no_trace", "tx_removed_no_trace", "delete_terminates", "delete_forgets", "recreate_fresh", "recreate_accepted_iff", "recreate_absent_accepted_iff",
             "recreate_as_if_never_existed", "child_create_over_parent_reindexes", "child_create_over_parent_no_trace",
-            "child_create_empty_name_rejected", "rc_and_child_links_no_trace", "cascade_witness", "cycle_witness", "extended_child_witness"]
+            "child_create_empty_name_rejected", "rc_and_child_links_no_trace", "cascade_witness", "cycle_witness", "extended_child_witness", "self_link_witness", "naming_variant_witness"]
 
 A_IDS = {"61", "62", "63", "64", "65"}
 
@@ -87,13 +87,17 @@ def extra_cmp(a, b, spec_mode):
 
 RULE = ("random histories (seeded) of 6-25 (quick) / 6-41 (thorough) transactions with 1-4 operations each over stores "
         "A (3-6 ids, one of them byte-equal to an id of B), its plain child store A1, its EXTENDED child store A2 and B "
-        "(3 ids): create A / create through A1 with 0-2 child-owned links / create through A2 with a colour (a fifth resp. "
+        "(3 ids); every third history under the naming variant of the schema (case prefix h1: symbol name, stored key and "
+        "caller-side checker name of name / alias differ, roles and colour have their own checker names; patches name fields "
+        "by the caller-side names): create A / create through A1 with 0-2 child-owned links / create through A2 with a colour (a fifth resp. "
         "a quarter of the child-store creates over an existing parent) / update and patch through A (20 checker subsets of "
         "name, alias, roles, owner, dep, groups, boss) and through A2 (12 subsets incl. colour; a tenth without ext2 data) / "
         "delete through A, A1 or A2 / boss self references: half of the written entities name a boss (an existing entity, "
         "itself, rarely a missing one), so chains, self loops and longer cycles arise and deletes cascade over them; "
         "1 transaction in 16 is 'delete x, create x again under boss y, delete y' / ref-counted link increments, "
-        "decrements and SetLinkCount 0-3 (12 % of the operations) / create, update, delete B (restricted while referenced "
+        "decrements and SetLinkCount 0-3 (10 % of the operations) / AddLinks, RemoveLinks, SetLinks on A.peers (A linked "
+        "with itself through one symbol; a third of the key lists contain the entity itself) and SetLinks on A.mentors (two "
+        "symbols) (6 %); 1 transaction in 12 writes the self-link buckets of x once or twice and deletes x / create, update, delete B (restricted while referenced "
         "through owner, cascading to the dependants through dep, whose own boss cascades run inside it); owners, deps, "
         "groups, pals and bosses mostly existing, sometimes missing; every history ends in a delete in its own transaction, "
         "half of the time of an entity somebody reports to; after every committed transaction boltz.ValidateDeleted and an "
